@@ -245,6 +245,15 @@ func (s *session) maskPaths() []string {
 	return s.g.TopPaths(s.msgTys[s.r.Intn(len(s.msgTys))], 2)
 }
 
+// readMaskPaths draws a read mask from the path tree of one of the message types in the model's signatures:
+// nested paths, paths through repeated messages, occasionally the empty mask.
+func (s *session) readMaskPaths() []string {
+	if len(s.msgTys) == 0 || s.r.Intn(12) == 0 {
+		return nil
+	}
+	return s.g.ReadMaskPaths(s.msgTys[s.r.Intn(len(s.msgTys))], 3)
+}
+
 func (s *session) arg(t reflect.Type, wantsStream bool, desc *[]string) reflect.Value {
 	switch {
 	case t == tCtx:
@@ -335,8 +344,8 @@ func (s *session) arg(t reflect.Type, wantsStream bool, desc *[]string) reflect.
 			return out
 		case tReadOpt:
 			d := "ropts["
-			if s.r.Intn(3) == 0 {
-				p := s.maskPaths()
+			if s.r.Intn(2) == 0 {
+				p := s.readMaskPaths()
 				d += fmt.Sprintf("WithReadMask%v ", p)
 				out = reflect.Append(out, reflect.ValueOf(resource.WithReadMask(&fieldmaskpb.FieldMask{Paths: p})))
 			}
@@ -378,14 +387,18 @@ func (s *session) fixRequestMasks(m proto.Message) {
 	for i := 0; i < fds.Len(); i++ {
 		fd := fds.Get(i)
 		if fd.Kind() == protoreflect.MessageKind && !fd.IsList() && fd.Message().FullName() == "google.protobuf.FieldMask" {
-			if s.r.Intn(3) != 0 {
+			if s.r.Intn(2) != 0 {
 				r.Clear(fd)
 				continue
 			}
 			var paths []string
-			if payload != nil {
+			switch {
+			case strings.Contains(string(fd.Name()), "read"):
+				// a read mask applies to the resource the request reads: draw from the path trees of the model's types
+				paths = s.readMaskPaths()
+			case payload != nil:
 				paths = s.g.TopPaths(payload, 2)
-			} else {
+			default:
 				paths = s.maskPaths()
 			}
 			r.Set(fd, protoreflect.ValueOfMessage((&fieldmaskpb.FieldMask{Paths: paths}).ProtoReflect()))
